@@ -11,11 +11,13 @@ Each directory holds `patch.diff` (the change), `demo.py` (fails with the change
 description: what it needs to manifest) and `meta.json` (what we re-ran ourselves: patch applies, demo without/with patch,
 full test suite with the patch, `./check <property>` against the patched tree). The authors (fresh sub-agents) saw only the
 property text and their own scratch worktree, nothing of /verif. A `…2` id is the same change re-based by us onto a later
-/repo HEAD after a fix commit touched the same function. Rows show the LAST verification (after any strengthening of the
+/repo HEAD after a fix commit touched the same function. `verified on /repo` is the commit of /repo the row was last verified
+against: a seed whose patch no longer applies after later fix commits keeps its last verification (the check of that time
+against the tree of that time). Rows show the LAST verification (after any strengthening of the
 check; the history of misses is in DESIGN.md section 10.5; `first verdict` is what the check said before it was strengthened).
 
-| seed | property | suite with patch | demo (clean / patched) | check verdict | signature | first verdict |
-|---|---|---|---|---|---|---|
+| seed | property | verified on /repo | suite with patch | demo (clean / patched) | check verdict | signature | first verdict |
+|---|---|---|---|---|---|---|---|
 '''
 
 
@@ -30,11 +32,15 @@ def main():
         else:
             verdict = 'MISSED'
         fv = m.get('first_verdict')
-        first = '' if not fv else ('caught' if fv.get('caught') else 'MISSED')
-        rows.append(f"| {m['id']} | {m['property']} | {m.get('suite_with_patch', 'n/a')} | {m.get('demo_without_patch_rc')} / "
+        if isinstance(fv, str):
+            first = 'MISSED' if fv.upper().startswith('MISSED') else fv[:40]
+        else:
+            first = '' if not fv else ('caught' if fv.get('caught_with_failing_input', fv.get('caught')) else
+                                       'no-failing-input-found' if fv.get('caught') else 'MISSED')
+        rows.append(f"| {m['id']} | {m['property']} | {m.get('repo_head', '')} | {m.get('suite_with_patch', 'n/a')} | {m.get('demo_without_patch_rc')} / "
                     f"{m.get('demo_with_patch_rc')} | {verdict} | {m.get('replay_signature') or ''} | {first} |")
     (VERIF / 'seeded' / 'INDEX.md').write_text(HEAD + '\n'.join(rows) + '\n')
-    print(len(rows), 'seeds;', sum('MISSED |' in r.split('|')[5] + '|' for r in rows), 'missed now')
+    print(len(rows), 'seeds;', sum('MISSED' in r.split('|')[6] for r in rows), 'missed now')
 
 
 if __name__ == '__main__':
